@@ -518,6 +518,9 @@ def run(ctx):
     r10_secret_measure(ctx, configs)
     from rules import c12
     c12.r1cd_typestate(ctx, ossl, rule_ids=('C10.R11a', 'C10.R11b'))
+    c20.r13_arm_digests(ctx, configs, rule_id='C10.R12')
+    c20.r14_arm_effects(ctx, configs, rule_id='C10.R13')
+    c20.r15_order_length(ctx, configs, rule_id='C10.R14')
 
 
 MUTANTS = [
